@@ -1,4 +1,4 @@
-import SFV.Lemmas.DbCache
+import SFV.Lemmas.DbCacheConc
 import SFV.Gen.DbCache
 /-! # C09 — database reads always reflect the latest writes
 
@@ -175,5 +175,39 @@ theorem missing_pop_caught :
       [.add aPort [.atom 1, .box [10]], .get (gPort .deep) 1, .update (uPort []) 1 [.atom 2, .box [10]], .get (gPort .deep) 1] =
     some [none, some [.atom 1, .box [10]], none, some [.atom 1, .box [10]]] := by
   constructor <;> decide
+
+/-! ### overlapping calls (outside the property's quantifier, which speaks of operation *sequences*)
+
+A cached getter that misses is suspended between its `SELECT` and cachebox's `_cache[key] = result`. -/
+
+/-- values returned by the calls of a history with overlapping reads -/
+def creads (spec : Spec) (locked : Bool) (ops : List COp) : Option (List (Option PRow)) :=
+  (crunFrom spec locked CSt.init ops).map (fun r => r.2.map (Option.map Row.erase))
+
+/-- **the statement is false for overlapping calls, even with a sound table** (known finding): `get_port(1)`
+misses and runs its `SELECT`; `update_port(1, …)` runs to completion (its `pop` finds nothing); the getter resumes
+and caches the row it read *before* the update; every later `get_port(1)` returns the old row. -/
+theorem concurrent_get_update_stale :
+    (specWith .deep [0]).sound = true ∧
+    creads (specWith .deep [0]) false
+      [.seq (.add aPort [.atom 1, .box [10]]), .getStart (gPort .deep) 1, .seq (.update (uPort [0]) 1 [.atom 2, .box [10]]),
+       .getFinish 0, .seq (.get (gPort .deep) 1)] =
+    some [none, none, none, some [.atom 1, .box [10]], some [.atom 1, .box [10]]] := by
+  constructor <;> decide
+
+/-- the proposed repair (an `update_*` waits while a getter reading its table is in flight) refuses exactly that
+interleaving … -/
+example : creads (specWith .deep [0]) true
+    [.seq (.add aPort [.atom 1, .box [10]]), .getStart (gPort .deep) 1, .seq (.update (uPort [0]) 1 [.atom 2, .box [10]])] = none := by
+  decide
+
+/-- … and **with it coherence holds for every history of overlapping calls**: caches agree with the tables and
+every suspended read still holds the stored row, so whatever a resumed getter caches and returns is current. -/
+theorem cache_coherent_concurrent_partial (spec : Spec) (hs : spec.sound = true) (s : CSt)
+    (h : CReachable spec true s) :
+    (∀ c id r, s.base.cache c id = some r → ∀ g ∈ spec.getters, g.cache = c → s.base.db g.table id = some r.erase) ∧
+    (∀ x ∈ s.pending, s.base.db x.1.table x.2.1 = some x.2.2) :=
+  let hI := cinv_reachable (soundP_of_sound hs) h
+  ⟨hI.inv.coh, fun x hx => (hI.pend x hx).2⟩
 
 end SFV.C09
